@@ -7,7 +7,7 @@ def run(ctx):
     paths, nnodes, nedges, steps, mism = S.replay(ctx, maxc, ideal, devrel)
     # the sequential part: every Encrypt step must seal with <own direction prefix, spec counter>
     S.report(ctx, mism, devrel, lambda dev, mm: mm.get("a", {}).get("act") == "Encrypt")
-    g, m, rounds = (8, 200, 10) if ctx.quick() else (64, 100, 24)
+    g, m, rounds = (8, 200, 10) if ctx.quick() else (64, 50, 30)
     summ, res, hw, ln, events = S.traces(ctx, "TestZZVSessionConc", {"ZZV_G": g, "ZZV_M": m, "ZZV_ROUNDS": rounds},
                                          "c02conc", cfg="TraceSessionSeal.cfg")
     if summ.get("data_race"):
